@@ -4,20 +4,28 @@ from ..core import Violation
 from .. import lifecycle_common as L
 
 ID = 'C18'
-MODULES = ['OFModel.Lifecycle', 'OFModel.Lineage']
-PROP_FILES = ['C18', 'C18Reuse']
+MODULES = ['OFModel.Lifecycle', 'OFModel.Lineage', 'OFModel.LineageLock']
+PROP_FILES = ['C18', 'C18Reuse', 'C18Lock']
 RULE = ('real OpenFilterLineage(client=capturing fake) as Filter.emitter on the real Filter.run of scripted filters: every way a run can end '
         '(exit() / exit(exc) incl. exit(reason, SystemExit(1)) / exception / KeyboardInterrupt / stop event / obeyed or ignored exit message at init, setup, recv/process/send of iteration k, '
         'shutdown, fini; failing constructor, MQ, send_exit_msg; exit_after; script exhaustion) x policies x heartbeat schedules: the heartbeat '
         'thread is gated so that it takes exactly sched[i] steps before the i-th emitter call of the main thread (run length vs heartbeat '
         'interval = the schedule), plus runs with a free-running 1 ms heartbeat thread (compared modulo the number of RUNNING events). '
-        'Plus sequences of 2-3 runs on ONE shared emitter object. non-trivial = START was emitted')
+        'Plus sequences of 2-3 runs on ONE shared emitter object. Plus the lock discipline: the statement-level model OFModel/LineageLock.lean '
+        '(heartbeat / main / exporter thread, program counters, lock owner, any scheduler; C18Lock.lean proves that it refines the atomic model) is '
+        'tied to the real class by 12 probes: the real heartbeat thread is parked inside its critical section (after its stop check / before the '
+        'facet build / before the post) while the owner runs [stop_lineage_heart_beat,] emit_stop(clean), then released; the recorded events and '
+        'whether the owner was blocked are compared with the model run (driver op c18.lock) on the corresponding schedule. '
+        'non-trivial = START was emitted')
 ASSUMPTIONS = ['several runs of one process share the emitter object (Filter.emitter is a class attribute) and therefore its run id; C18_reused_emitter proves that from any between-runs state a run emits the history it emits on a fresh object, and sequences of 2-3 runs on one real object are compared run by run with the model',
                '"ended cleanly" is read as: Filter.run returned normally (C08: returns for clean exits, raises for errors); a stop event (signal) and an obeyed, eaten propagated error therefore end in COMPLETE; anything leaving run() - an Exception, a KeyboardInterrupt, exit(reason, SystemExit(n)) - in ABORT',
                'a run whose constructor fails, or whose subclass init() fails before Filter.init() is reached, emits nothing (no START): stated boundary',
-               'heartbeat steps are atomic with respect to emit_stop - no longer assumed: probed on the real class on every run (atomic_probe parks the heartbeat thread inside its step at three points while the owner ends the run, 12 probes); a killed process emits nothing',
+               'heartbeat steps and emitter calls are atomic with respect to each other - no longer assumed: C18_lock_refines_atomic derives it from the lock discipline of lineage.py transcribed statement by statement (OFModel/LineageLock.lean: which statements are inside `with self._lock`, lock owner, every scheduler of heartbeat, main and exporter thread), C18_lock_language / C18_lock_terminal transfer the history theorems to every fine-grained schedule, C18_lock_post_outside_lock_breaks is the kernel-checked counterexample when the RUNNING post leaves the lock; what remains assumed is listed under TRUSTED (CPython primitives) and the granularity: one statement = one step, Event.set/clear/is_set and client.emit are single steps',
+               'a killed process emits nothing; the exporter thread only calls update_heartbeat_lineage (no event); one main thread makes the emitter calls (Filter.run)',
                'event payloads (facets, job name, producer, timestamps) are not compared']
-TRUSTED = ['the gate that parks the heartbeat thread in _stop_event.wait() (harness) realises the schedule of the model\'s interleave']
+TRUSTED = ['the gate that parks the heartbeat thread in _stop_event.wait() (harness) realises the schedule of the model\'s interleave',
+           'CPython: threading.Lock is a mutual-exclusion lock (acquire blocks while it is held), threading.Event.set/clear/is_set are atomic, Thread.is_alive() is true until the target has returned',
+           'the park points of atomic_probe (inside Event.is_set under the lock / at the entry of create_openfilter_facet_with_fields / at the entry of client.emit) are the program counters readFacets / build / post of OFModel/LineageLock.lean; lock_schedule() writes down the schedule the probe realises']
 
 
 class Cap:
@@ -148,25 +156,32 @@ def oracle(case, o):
 
 
 PARK_POINTS = ['stop-check', 'facet-build', 'post']
+PARK_PC = {'stop-check': 'readFacets', 'facet-build': 'build', 'post': 'post'}   # program counter of OFModel/LineageLock.lean the thread is parked at
+OWNER_TRIES = 3
 
 
-def atomic_probe(point, clean, via_stop_hb=False):
-    """Checks the atomicity the model's interleaving assumes, on the real class: the heartbeat thread is parked *inside* its step
-    (right after its stop check / while it builds the facets / just before the event is posted) and the owner of the run ends it
-    meanwhile.  If the step is atomic the owner blocks until the heartbeat is released, otherwise it overtakes it - either way
-    the recorded history must still be START RUNNING* terminal.  Timing only decides how long the probe takes, not its verdict."""
+def atomic_probe(point, clean, via_stop_hb=False, warm=1):
+    """The TIE of the statement-level model OFModel/LineageLock.lean (whose refinement into the atomic model is C18_lock_refines_atomic):
+    the real heartbeat thread makes `warm` free iterations, then is parked *inside* its critical section (right after its stop check /
+    at the entry of the facet build / just before the event is posted) and the owner of the run ends it meanwhile
+    ([stop_lineage_heart_beat,] emit_stop(clean)).  The heartbeat thread is then released, and held in its next _stop_event.wait()
+    until the owner has returned, so the schedule is the one lock_schedule() writes down.  Observed: the events and whether the owner
+    was blocked on the lock.  Timing only decides how long the probe takes, not what is observed."""
     from openfilter.observability import lineage as LM
     cap = Cap(); em = LM.OpenFilterLineage(client=cap, interval=1); em.interval = 0.001
-    parked, go = threading.Event(), threading.Event()
+    parked, go, owner_done = threading.Event(), threading.Event(), threading.Event()
     hb = lambda: threading.current_thread() is em._thread
     n = {'steps': 0}
     def park():
-        if hb() and not parked.is_set() and n['steps'] >= 1: parked.set(); go.wait(5)
+        if hb() and not parked.is_set() and n['steps'] >= warm: parked.set(); go.wait(5)
     class Ev(threading.Event):
         def is_set(s):
             r = super().is_set()
             if point == 'stop-check' and hb() and not r and em._lock.locked(): park()
             return r
+        def wait(s, timeout=None):
+            if hb() and parked.is_set(): owner_done.wait(5); return super().is_set()
+            return super().wait(timeout)
     em._stop_event = Ev()
     post = cap.emit
     def emit(e):
@@ -188,13 +203,30 @@ def atomic_probe(point, clean, via_stop_hb=False):
             em.emit_stop(clean)
         t = threading.Thread(target=end, daemon=True); t.start(); t.join(0.25)
         overtook = not t.is_alive()
-        go.set(); t.join(5)
+        go.set(); t.join(5); owner_done.set()
         if em._thread: em._thread.join(2)
     finally:
         LM.create_openfilter_facet_with_fields = real_facet
-        go.set()
+        go.set(); owner_done.set()
     E = [x for x, _ in cap.ev]
-    return {'events': E, 'parked': got, 'owner_overtook_heartbeat': overtook}
+    return {'events': E, 'parked': got, 'owner_overtook_heartbeat': overtook, 'thread_gone': not (em._thread and em._thread.is_alive())}
+
+
+def lock_schedule(point, clean, via_stop_hb=False, warm=1):
+    """the schedule of OFModel/LineageLock.lean that atomic_probe realises, phase by phase (m = one statement of the main thread,
+    h = of the heartbeat thread); -> (driver request, index of the step after which the thread is parked, index after the owner's tries)"""
+    ops = ['emit_start', 'hb_start'] + (['hb_stop'] if via_stop_hb else []) + ['emit_stop:clean' if clean else 'emit_stop:abort']
+    k = PARK_POINTS.index(point)
+    sched = ['m'] * (5 + 4)                               # emit_start: call, acquire, flags, post, release; start_lineage_heart_beat: call, test, clear, start
+    sched += ['h'] * (8 * warm)                           # free iterations: loop test, acquire, stop check, facets, build, post, release, wait
+    sched += ['h'] * (3 + k)                              # loop test, acquire, stop check [, facets [, build]]: parked
+    i_park = len(sched)
+    sched += ['m'] * ((2 if via_stop_hb else 0) + 1 + OWNER_TRIES)   # [stop_lineage_heart_beat: call, set;] emit_stop: call, acquire (blocked) ...
+    i_tries = len(sched)
+    sched += ['h'] * (4 - k)                              # released: [facets, build,] post, release -> held in wait
+    sched += ['m'] * 6                                    # acquire, set stop event, test flags, _stopped = True, post, release
+    sched += ['h'] * 2                                    # wait returns, loop test: the thread returns
+    return {'op': 'c18.lock', 'ops': ops, 'sched': sched, 'inside': True}, i_park, i_tries
 
 
 def probe_oracle(o, clean):
@@ -289,18 +321,35 @@ def run(ctx):
                         res.disagreements.append({'point': 'c18.history (re-used emitter)', 'case': {'multi': g[:j + 1]}, 'impl': {'events': o['events'], 'returns': o['returns']}, 'model': m})
                     else: res.traces_validated += 1
         res.extra['runs_on_shared_emitter'] = nmulti
-    # atomicity of a heartbeat step with respect to the end of the run (the assumption behind the model's interleaving)
+    # the lock discipline: tie of the statement-level model (OFModel/LineageLock.lean, refinement proved in C18Lock.lean) + the oracle
     probes = {}
     if ctx.replay and ctx.replay.get('case', {}).get('probe'): plist = [ctx.replay['case']['probe']]
     elif ctx.replay: plist = []
-    else: plist = [[p, c, v] for p in PARK_POINTS for c in (True, False) for v in (False, True)]
-    for point, clean, via in plist:
-        o = atomic_probe(point, clean, via)
-        res.note({'probe': [point, clean, via]}, o['parked'])
-        probes[f'{point}:{"clean" if clean else "abort"}{":hb_stop-first" if via else ""}'] = {'parked': o['parked'], 'owner_overtook_heartbeat': o['owner_overtook_heartbeat'], 'events': ' '.join(o['events'])}
+    else: plist = [[p, c, v, rng.choice([1, 1, 2, 3])] for p in PARK_POINTS for c in (True, False) for v in (False, True)]
+    plist = [list(x) + [1] * (4 - len(x)) for x in plist]
+    lmodel = None
+    if ctx.driver and plist:
+        lmodel = ctx.driver.batch([lock_schedule(*x)[0] for x in plist])
+    for i, (point, clean, via, warm) in enumerate(plist):
+        o = atomic_probe(point, clean, via, warm)
+        case = {'probe': [point, clean, via, warm]}
+        res.note(case, o['parked'])
+        name = f'{point}:{"clean" if clean else "abort"}{":hb_stop-first" if via else ""}'
+        probes[name] = {'parked': o['parked'], 'owner_overtook_heartbeat': o['owner_overtook_heartbeat'], 'events': ' '.join(o['events']), 'free_iterations': warm}
         bad = probe_oracle(o, clean)
-        if bad: res.violations.append(Violation(f'{bad[0]}:{point}', f'{bad[1]}: {" ".join(o["events"])}', {'probe': [point, clean, via]}))
-        elif o['parked']: res.traces_validated += 1
+        if bad: res.violations.append(Violation(f'{bad[0]}:{point}', f'{bad[1]}: {" ".join(o["events"])}', case))
+        if lmodel is not None and o['parked']:
+            m = lmodel[i]; _, i_park, i_tries = lock_schedule(point, clean, via, warm)
+            mi = {'events': o['events'], 'parked_at': PARK_PC[point], 'owner_blocked': not o['owner_overtook_heartbeat'], 'owner_returned': True, 'thread_gone': o['thread_gone']}
+            if 'err' in m: mm = m
+            else:
+                tr = m['trace']
+                mm = {'events': m['events'], 'parked_at': tr[i_park - 1].split('/')[0], 'owner_blocked': tr[i_tries - 1].split('/')[1] == 'epAcq',
+                      'owner_returned': m['main_done'], 'thread_gone': m['hpc'] == 'idle'}
+                probes[name]['model_events'] = ' '.join(m['events'])
+            if mi == mm: res.traces_validated += 1
+            elif not bad: res.disagreements.append({'point': 'c18.lock', 'case': case, 'impl': mi, 'model': mm})
+        elif not bad and o['parked']: res.traces_validated += 1
     res.extra['heartbeat_atomicity_probes'] = probes
     res.extra['endings'] = ends
     res.extra['terminal_events'] = terms
